@@ -149,6 +149,7 @@ class BufferAnalysis:
         self.loop_head = {}
         self.unknown = []        # unknown idioms (append outside a grow guard)
         self._seen_text = {}
+        self._desugared = {}
         self.names = ['0']
         self.frames = {}
         self._plan(entry, 'e')
@@ -161,6 +162,14 @@ class BufferAnalysis:
         # parameters may turn out to be ints/buffers at an inline call: give every parameter an int slot too
         for p in f.params[1:]:
             ints.add(p)
+        # counted for-loops: the loop variable of a range loop is an integer, every counted loop gets a ghost counter
+        for n in ast.walk(f.node):
+            if isinstance(n, ast.For):
+                shape = self.for_shape(n, bufs)
+                if shape is not None:
+                    ints.add(self.ghost_name(n))
+                    if shape[0] == 'range':
+                        ints.add(n.target.id)
         for b in bufs:
             fr.bufenv[b] = 'L.%s.%s' % (prefix, b)
             if fr.bufenv[b] not in self.names:
@@ -245,7 +254,17 @@ class BufferAnalysis:
         if isinstance(test, ast.UnaryOp) and isinstance(test.op, ast.Not):
             return self.guard(st, test.operand, not pol, fr)
 
+        fk = self.fact_key(test, fr)
+
         def f(fl, z):
+            if fk is not None:
+                key, eq_when_true = fk
+                truth = eq_when_true if pol else not eq_when_true
+                if key in fl and fl[key] != truth:
+                    z.bot = True
+                    return (fl, z)
+                fl[key] = truth
+                return (fl, z)
             if isinstance(test, ast.Compare) and len(test.ops) == 1 and isinstance(test.left, ast.Name) and test.left.id in fr.flagenv:
                 c = status_const(test.comparators[0])
                 v = fr.flagenv[test.left.id]
@@ -262,6 +281,58 @@ class BufferAnalysis:
                     return (fl, z)
             return (fl, self.guard_zone(z, test, pol, fr))
         return st.map(f)
+
+    # ---------------------------------------------------------------- equality facts between object-valued expressions
+    def fact_key(self, test, fr):
+        """('f:<frame>:<a>==<b>', equal-when-true) for a comparison a ==/!=/is/is not b of two call-free, non-integer, non-status expressions"""
+        if not (isinstance(test, ast.Compare) and len(test.ops) == 1 and isinstance(test.ops[0], (ast.Eq, ast.NotEq, ast.Is, ast.IsNot))):
+            return None
+        a, b = test.left, test.comparators[0]
+        for e in (a, b):
+            if self.iexpr(e, fr) is not None or status_const(e) is not None or isinstance(e, ast.Constant):
+                return None
+            if isinstance(e, ast.Name) and e.id in fr.flagenv:
+                return None
+            if not isinstance(e, (ast.Name, ast.Attribute)):
+                return None
+            if any(isinstance(n, (ast.Call, ast.Subscript)) for n in ast.walk(e)):
+                return None
+        ta, tb = sorted([norm(a), norm(b)])
+        return ('f:%s:%s==%s' % (fr.prefix, ta, tb), isinstance(test.ops[0], (ast.Eq, ast.Is)))
+
+    def kill_facts(self, st, fr, path=None, all_attrs=False):
+        """forget equality facts that mention `path` (a dotted name) - or every fact about an attribute when a call may have written it"""
+        if not any(k.startswith('f:') for key in st.parts for k, _ in key):
+            return st
+
+        def f(fl, z):
+            for k in list(fl):
+                if not k.startswith('f:'):
+                    continue
+                body = k.split(':', 2)[2]
+                sides = body.split('==')
+                drop = False
+                for sd in sides:
+                    if all_attrs and '.' in sd:
+                        drop = True
+                    if path is not None and (sd == path or sd.startswith(path + '.') or path.startswith(sd + '.')):
+                        drop = True
+                if drop:
+                    del fl[k]
+            return (fl, z)
+        return st.map(f)
+
+    def call_may_write_attrs(self, c, fr):
+        f = c.func
+        if isinstance(f, ast.Name) and f.id not in fr.intenv and f.id not in fr.bufenv:
+            # a module-level function or class (Event(...), len(...)): reaches the object only through its arguments
+            selfn = fr.func.params[0] if fr.func.params else None
+            args = list(c.args) + [k.value for k in c.keywords]
+            local_names = {n.id for n in ast.walk(fr.func.node) if isinstance(n, ast.Name) and isinstance(n.ctx, ast.Store)}
+            if f.id in local_names:
+                return True         # a local holding a callable (a state handler)
+            return any(isinstance(n, ast.Name) and n.id == selfn for a in args for n in ast.walk(a))
+        return True
 
     # ---------------------------------------------------------------- obligations
     def check_index(self, st, idx, fr, node, kind, L):
@@ -284,6 +355,8 @@ class BufferAnalysis:
         for n in ast.walk(expr):
             if isinstance(n, ast.Subscript) and self.is_buf(n.value, fr) and isinstance(n.ctx, ast.Load):
                 st = self.check_index(st, n.slice, fr, n, 'O3-load', fr.bufenv[n.value.id])
+        if any(isinstance(n, ast.Call) and self.call_may_write_attrs(n, fr) for n in ast.walk(expr)):
+            st = self.kill_facts(st, fr, all_attrs=True)
         return st
 
     # ---------------------------------------------------------------- statements
@@ -295,6 +368,10 @@ class BufferAnalysis:
         return st
 
     def assign1(self, st, tgt, val, fr):
+        from .model import dotted as _dotted
+        d = _dotted(tgt)
+        if d is not None:
+            st = self.kill_facts(st, fr, path=d)
         if isinstance(tgt, ast.Subscript) and self.is_buf(tgt.value, fr):
             return self.check_index(st, tgt.slice, fr, tgt, 'O1-store', fr.bufenv[tgt.value.id])
         if not isinstance(tgt, ast.Name):
@@ -427,17 +504,38 @@ class BufferAnalysis:
             self.loop_head[id(s)] = (head.copy(), fr)
             return ex
         if isinstance(s, ast.For):
-            # no for-loops touch the buffer in this code base; treat the body as executed 0..n times with forgotten ints
+            ds = self.desugar_for(s, fr)
+            if ds is not None:
+                return self.block(ds, st, fr, ctl)
+            if any(isinstance(n, ast.Name) and n.id in fr.bufenv for n in ast.walk(s.iter)):
+                raise AnalysisError('%s: for-loop over the path buffer in an unrecognised form (%s)' % (fr.func.qualname, norm(s.iter)))
+            # a loop over something else: the body is executed 0..n times; integer loop targets are unknown
             head = st.copy()
-            for _ in range(3):
+            tnames = [n.id for n in ast.walk(s.target) if isinstance(n, ast.Name)]
+
+            def forget_targets(x):
+                def f(fl, z):
+                    for t in tnames:
+                        if t in fr.intenv:
+                            z.forget(fr.intenv[t])
+                    return (fl, z)
+                return x.map(f)
+            brk = []
+            for it in range(40):
                 brk = []
                 ctl2 = dict(ctl)
                 ctl2['breaks'] = brk
-                out = self.block(s.body, head, fr, ctl2)
-                head = head.widen(head.join(out))
+                ctl2.pop('grow', None)
+                out = self.block(s.body, forget_targets(head), fr, ctl2)
+                new = head.join(out)
+                if new.leq(head):
+                    break
+                head = head.widen(new) if it >= 6 else new
             ex = head
             for b in brk:
                 ex = ex.join(b)
+            if s.orelse:
+                ex = self.block(s.orelse, ex, fr, ctl)
             return ex
         if isinstance(s, ast.Break):
             ctl['breaks'].append(st.copy())
@@ -466,6 +564,81 @@ class BufferAnalysis:
                 out = self.block(s.finalbody, out, fr, ctl)
             return out
         raise AnalysisError('unsupported statement %s in %s' % (type(s).__name__, fr.func.qualname))
+
+    # ---------------------------------------------------------------- counted for-loops
+    def for_shape(self, s, bufs):
+        """('range', a, b, step) | ('rslice', buf, n) for `for i in range(..)` / `for x in reversed(buf[:n])` / `for x in buf[n-1::-1]`-free forms, else None"""
+        it = s.iter
+        if isinstance(it, ast.Call) and isinstance(it.func, ast.Name) and it.func.id == 'range' and isinstance(s.target, ast.Name) and not it.keywords:
+            a = it.args
+            zero = ast.Constant(value=0)
+            if len(a) == 1:
+                return ('range', zero, a[0], 1)
+            if len(a) == 2:
+                return ('range', a[0], a[1], 1)
+            if len(a) == 3:
+                st = a[2]
+                if isinstance(st, ast.UnaryOp) and isinstance(st.op, ast.USub) and isinstance(st.operand, ast.Constant) and st.operand.value == 1:
+                    return ('range', a[0], a[1], -1)
+                if isinstance(st, ast.Constant) and st.value == 1:
+                    return ('range', a[0], a[1], 1)
+            return None
+        if isinstance(it, ast.Call) and isinstance(it.func, ast.Name) and it.func.id == 'reversed' and len(it.args) == 1 and isinstance(s.target, ast.Name):
+            sl = it.args[0]
+            if isinstance(sl, ast.Subscript) and isinstance(sl.value, ast.Name) and sl.value.id in bufs and isinstance(sl.slice, ast.Slice):
+                lo, hi, stp = sl.slice.lower, sl.slice.upper, sl.slice.step
+                if (lo is None or (isinstance(lo, ast.Constant) and lo.value == 0)) and hi is not None and stp is None:
+                    return ('rslice', sl.value.id, hi)
+            if isinstance(sl, ast.Name) and sl.id in bufs:
+                return ('rslice', sl.id, ast.Call(func=ast.Name(id='len', ctx=ast.Load()), args=[ast.Name(id=sl.id, ctx=ast.Load())], keywords=[]))
+        return None
+
+    def ghost_name(self, s):
+        return '_for_%d_%d' % (s.lineno, s.col_offset)
+
+    def desugar_for(self, s, fr):
+        """while-form of a counted for-loop over a ghost counter g (declared by _plan):
+             for i in range(a, b, -1): B      ==>   g = a + 1; while g > b + 1: g -= 1; i = g; B
+             for i in range(a, b, +1): B      ==>   g = a - 1; while g < b - 1: g += 1; i = g; B
+             for x in reversed(buf[:n]): B    ==>   g = n;     while g > 0:     g -= 1; x = buf[g]; B
+           (`continue` in B is safe: the counter moves at the top; i keeps its last value after the loop)"""
+        shape = self.for_shape(s, fr.bufenv)
+        g = self.ghost_name(s)
+        if shape is None or g not in fr.intenv or s.orelse:
+            return None
+
+        def N(id_, store=False):
+            return ast.Name(id=id_, ctx=ast.Store() if store else ast.Load())
+
+        def plus(e, k):
+            if k == 0:
+                return e
+            return ast.BinOp(left=e, op=ast.Add() if k > 0 else ast.Sub(), right=ast.Constant(value=abs(k)))
+        if shape[0] == 'range':
+            _, a, b, step = shape
+            init = ast.Assign(targets=[N(g, True)], value=plus(a, -step))
+            test = ast.Compare(left=N(g), ops=[ast.Gt() if step < 0 else ast.Lt()], comparators=[plus(b, -step)])
+            move = ast.AugAssign(target=N(g, True), op=ast.Add() if step > 0 else ast.Sub(), value=ast.Constant(value=1))
+            bind = ast.Assign(targets=[N(s.target.id, True)], value=N(g))
+        else:
+            _, buf, n = shape
+            init = ast.Assign(targets=[N(g, True)], value=n)
+            test = ast.Compare(left=N(g), ops=[ast.Gt()], comparators=[ast.Constant(value=0)])
+            move = ast.AugAssign(target=N(g, True), op=ast.Sub(), value=ast.Constant(value=1))
+            bind = ast.Assign(targets=[N(s.target.id, True)], value=ast.Subscript(value=N(buf), slice=N(g), ctx=ast.Load()))
+        loop = ast.While(test=test, body=[move, bind] + list(s.body), orelse=[])
+        key = id(s)
+        if key not in self._desugared:
+            for x in (init, loop):
+                ast.copy_location(x, s)
+                ast.fix_missing_locations(x)
+            for x in (test, move, bind):
+                for n_ in ast.walk(x):
+                    if not hasattr(n_, 'lineno') or True:
+                        n_.lineno, n_.col_offset = s.iter.lineno, s.iter.col_offset
+                        n_.end_lineno, n_.end_col_offset = getattr(s.iter, 'end_lineno', s.iter.lineno), getattr(s.iter, 'end_col_offset', s.iter.col_offset)
+            self._desugared[key] = [init, loop]
+        return self._desugared[key]
 
     def inline(self, st, tgt, call, fr):
         callee = self.callees[call.func.attr]
@@ -506,7 +679,7 @@ class BufferAnalysis:
                         z.forget(cv)
                 for n in cfr.intenv.values():
                     z.forget(n)
-                fl = {k: v for k, v in fl.items() if not k.startswith(cfr.prefix + '.')}
+                fl = {k: v for k, v in fl.items() if not k.startswith(cfr.prefix + '.') and not k.startswith('f:%s:' % cfr.prefix)}
                 return (fl, z)
             res = res.join(rz.map(f))
         return res
